@@ -14,8 +14,8 @@ Transcribes `Include/Digit.hpp` (the tree with the four C09 repairs applied:
 | `twentieth`           | 360-410 (the 20th digit and the `0x1999999999999999` overflow test)           |
 | `expDigits`,`parseExponent` | 675-723                                                                 |
 | `tailLoop`            | 448-487 (`keep_going` loop: ignored digits, a late dot, the exponent)         |
-| `posLoop`,`powerOfPositiveTen` | 629-672                                                              |
-| `negLoop`,`powerOfNegativeTen` | 543-626 (the 8-byte branch)                                          |
+| `posLoop`,`posScale`,`posFinish`,`powerOfPositiveTen` | 629-672                                       |
+| `negLoop`,`negScale`,`negFinish`,`powerOfNegativeTen` | 543-626 (the 8-byte branch)                   |
 | `finishReal`          | 428-535                                                                       |
 | `strToNum`            | `stringToNumber` 219-540                                                      |
 
@@ -250,60 +250,70 @@ def posLoop (p : Nat) : Nat → Nat → Nat → Nat × Nat
     let b1 := bmul b p
     if bindex b1 > 2 then posLoop p n (bshr b1 maxShift) (add32 s maxShift) else posLoop p n b1 s
 
-/-- `powerOfPositiveTen(number, exponent)` → the new `number` (binary64 pattern without sign). -/
-def powerOfPositiveTen (num exponent : Nat) : Option Nat :=
+/-- the `BigInt` part of `powerOfPositiveTen`: `(b_int, shifted)` before `FindLastBit` -/
+def posScale (num exponent : Nat) : Option (Nat × Nat) :=
   match powerOfFive[maxPowerOfFive]? with
   | none => none
   | some p =>
-    let (b0, shifted0) := posLoop p (exponent / maxPowerOfFive) num exponent
+    let bs := posLoop p (exponent / maxPowerOfFive) num exponent
     let r := exponent % maxPowerOfFive
-    match (if r ≠ 0 then (powerOfFive[r]?).map (bmul b0) else some b0) with
-    | none => none
-    | some b =>
-      let bit := Nat.log2 b
-      let (number, shifted) :=
-        if bit ≤ 52 then (((b % 2 ^ 64) * 2 ^ (52 - bit)) % 2 ^ 64, shifted0)
-        else
-          let n := roundBit ((bshr b (bit - 53)) % 2 ^ 64)
-          (n, add32 shifted0 (b2n (decide (n > 0x1FFFFFFFFFFFFF))))
-      let exp := bias + bit + shifted
-      if exp ≥ 0x7FF then some 0x7FF0000000000000     -- repaired: infinity
-      else some ((number &&& 0xFFFFFFFFFFFFF) ||| ((exp * 2 ^ 52) % 2 ^ 64))
+    if r ≠ 0 then (powerOfFive[r]?).map (fun q => (bmul bs.1 q, bs.2)) else some bs
+
+/-- 653-672: normalise to 53 bits, round, assemble the pattern (repaired: infinity on overflow) -/
+def posFinish (b shifted0 : Nat) : Nat :=
+  let bit := Nat.log2 b
+  let ns : Nat × Nat :=
+    if bit ≤ 52 then (((b % 2 ^ 64) * 2 ^ (52 - bit)) % 2 ^ 64, shifted0)
+    else
+      let n := roundBit ((bshr b (bit - 53)) % 2 ^ 64)
+      (n, add32 shifted0 (b2n (decide (n > 0x1FFFFFFFFFFFFF))))
+  let exp := bias + bit + ns.2
+  if exp ≥ 0x7FF then 0x7FF0000000000000
+  else (ns.1 &&& 0xFFFFFFFFFFFFF) ||| ((exp * 2 ^ 52) % 2 ^ 64)
+
+/-- `powerOfPositiveTen(number, exponent)` → the new `number` (binary64 pattern without sign). -/
+def powerOfPositiveTen (num exponent : Nat) : Option Nat :=
+  (posScale num exponent).map (fun bs => posFinish bs.1 bs.2)
 
 /-- `while (exponent >= MaxPowerOfFive)` of `powerOfNegativeTen` (8-byte branch); `n` = trip count. -/
 def negLoop (r s : Nat) : Nat → Nat → Nat → Nat × Nat
   | 0, b, sh => (b, sh)
   | n + 1, b, sh => negLoop r s n (bshr (bmul b r) maxShift) (add32 sh s)
 
-/-- `powerOfNegativeTen(number, exponent)` → the new `number`. -/
-def powerOfNegativeTen (num exponent : Nat) : Option Nat :=
+/-- the `BigInt` part of `powerOfNegativeTen`: `(b_int, shifted)` before `FindLastBit` -/
+def negScale (num exponent : Nat) : Option (Nat × Nat) :=
   match powerOfOneOverFive[maxPowerOfFive]?, powerOfOneOverFiveShift[maxPowerOfFive]? with
   | some r27, some s27 =>
-    let (b0, sh0) := negLoop r27 s27 (exponent / maxPowerOfFive) (bshl num 64) (add32 exponent 64)
+    let bs := negLoop r27 s27 (exponent / maxPowerOfFive) (bshl num 64) (add32 exponent 64)
     let r := exponent % maxPowerOfFive
-    match (if r ≠ 0 then
-             match powerOfOneOverFive[r]?, powerOfOneOverFiveShift[r]? with
-             | some rr, some ss => some (bshr (bmul b0 rr) maxShift, add32 sh0 ss)
-             | _, _ => none
-           else some (b0, sh0)) with
-    | none => none
-    | some (b, shifted) =>
-      let bit := Nat.log2 b
-      let number := (bshr b (sub32 bit 53)) % 2 ^ 64
-      let (number, exp) :=
-        if shifted ≤ bit then
-          let n := roundBit number
-          (n, add32 (add32 bias (bit - shifted)) (b2n (decide (n > 0x1FFFFFFFFFFFFF))))
-        else
-          let sh := shifted - bit
-          if bias > sh then
-            let n := roundBit number
-            (n, add32 (bias - sh) (b2n (decide (n > 0x1FFFFFFFFFFFFF))))
-          else
-            let n := roundBit (number / 2 ^ (add32 (sh - bias) 1))
-            (n, b2n (decide (n > 0xFFFFFFFFFFFFF)))
-      some ((number &&& 0xFFFFFFFFFFFFF) ||| ((exp * 2 ^ 52) % 2 ^ 64))
+    if r ≠ 0 then
+      match powerOfOneOverFive[r]?, powerOfOneOverFiveShift[r]? with
+      | some rr, some ss => some (bshr (bmul bs.1 rr) maxShift, add32 bs.2 ss)
+      | _, _ => none
+    else some bs
   | _, _ => none
+
+/-- 588-625: normalise to 54 bits, the three exponent cases (normal ≥ 1, normal < 1, subnormal) -/
+def negFinish (b shifted : Nat) : Nat :=
+  let bit := Nat.log2 b
+  let number := (bshr b (sub32 bit 53)) % 2 ^ 64
+  let ne : Nat × Nat :=
+    if shifted ≤ bit then
+      let n := roundBit number
+      (n, add32 (add32 bias (bit - shifted)) (b2n (decide (n > 0x1FFFFFFFFFFFFF))))
+    else
+      let sh := shifted - bit
+      if bias > sh then
+        let n := roundBit number
+        (n, add32 (bias - sh) (b2n (decide (n > 0x1FFFFFFFFFFFFF))))
+      else
+        let n := roundBit (number / 2 ^ (add32 (sh - bias) 1))
+        (n, b2n (decide (n > 0xFFFFFFFFFFFFF)))
+  (ne.1 &&& 0xFFFFFFFFFFFFF) ||| ((ne.2 * 2 ^ 52) % 2 ^ 64)
+
+/-- `powerOfNegativeTen(number, exponent)` → the new `number`. -/
+def powerOfNegativeTen (num exponent : Nat) : Option Nat :=
+  (negScale num exponent).map (fun bs => negFinish bs.1 bs.2)
 
 /-! ### The real-number tail 428-535 -/
 
